@@ -127,6 +127,8 @@ class Report:
                 self.known.append(key)
                 print('KNOWN-FINDING: property=%s %s' % (self.prop, self._known[key].split(' ', 3)[-1]))
             return
+        if any(k == key for k, _, _ in self.violations):
+            return                      # same failing input / call site already reported in this run
         path = self._save_replay(key, desc, replay_obj)
         self.violations.append((key, desc, path))
         print('VIOLATION property=%s replay=%s' % (self.prop, path))
